@@ -9,12 +9,21 @@ import (
 	vestingtypes "github.com/cosmos/cosmos-sdk/x/auth/vesting/types"
 )
 
-// CheckIfAccountIsSuitableForDestroying checking the account is suitable for destroy (EVM) or not.
+// CheckIfAccountIsSuitableForDestroying checking the account is suitable for destroy (EVM) or not,
+// the vesting expiry is evaluated against the wall clock.
+//
+// WARNING: do not use this during block execution because the wall clock is not deterministic,
+// use CheckIfAccountIsSuitableForDestroyingAtTime with the block time instead.
+func CheckIfAccountIsSuitableForDestroying(account sdk.AccountI) (destroyable bool, reason string) {
+	return CheckIfAccountIsSuitableForDestroyingAtTime(account, time.Now())
+}
+
+// CheckIfAccountIsSuitableForDestroyingAtTime checking the account is suitable for destroy (EVM) or not, at the given time.
 //
 // It returns false and the reason if the account:
 //  1. Is a module account.
-//  2. Is a vesting account which still not expired.
-func CheckIfAccountIsSuitableForDestroying(account sdk.AccountI) (destroyable bool, reason string) {
+//  2. Is a vesting account which still not expired at the given time.
+func CheckIfAccountIsSuitableForDestroyingAtTime(account sdk.AccountI, now time.Time) (destroyable bool, reason string) {
 	if account == nil || reflect.ValueOf(account).IsNil() {
 		panic("account is nil")
 	}
@@ -25,14 +34,14 @@ func CheckIfAccountIsSuitableForDestroying(account sdk.AccountI) (destroyable bo
 	}
 
 	if vestingAcc, ok := account.(*vestingtypes.BaseVestingAccount); ok {
-		if vestingAcc.GetEndTime() > time.Now().UTC().Unix() {
+		if vestingAcc.GetEndTime() > now.UTC().Unix() {
 			reason = "unexpired vesting account is not suitable for destroying"
 			return
 		}
 	}
 
 	if vestingAcc, ok := account.(vesting.VestingAccount); ok {
-		if vestingAcc.GetEndTime() > time.Now().UTC().Unix() {
+		if vestingAcc.GetEndTime() > now.UTC().Unix() {
 			reason = "unexpired vesting account is not suitable for destroying"
 			return
 		}
